@@ -115,6 +115,8 @@ def check(tier: str) -> Result:
         if tb:
             body, trees = tb
             la, lb = mk("leaf", a), mk("leaf", b)
+            while ext_name(body) == "builtins.bool" and len(body.args[1]) == 1:
+                body = body.args[1][0]          # bool(np.array_equal(..)) is the same truth value
             if ext_name(body) in ("numpy.array_equal", "jax.numpy.array_equal") and len(body.args[1]) == 2:
                 x, y = (strip_cast(z) for z in body.args[1])
                 ok = {x, y} == {la, lb} and set(trees) == {a, b}
